@@ -121,3 +121,113 @@ func c02RemovalDuringDispatch(run *rt.Run, r *rt.Rand) {
 		}
 	}
 }
+
+// reNode counts Reopen calls; the first nodes of the pipelines run a callback from inside Reopen.
+type reNode struct {
+	typ     eventlogger.NodeType
+	reopens int64
+	hook    func()
+}
+
+func (d *reNode) Process(_ context.Context, e *eventlogger.Event) (*eventlogger.Event, error) {
+	if d.typ == eventlogger.NodeTypeSink {
+		return nil, nil
+	}
+	return e, nil
+}
+func (d *reNode) Reopen() error {
+	atomic.AddInt64(&d.reopens, 1)
+	if d.hook != nil {
+		d.hook()
+	}
+	return nil
+}
+func (d *reNode) Type() eventlogger.NodeType { return d.typ }
+
+// c20RemovalDuringReopen: while Broker.Reopen walks the pipelines of an event type, a pipeline it has already
+// reached is removed (by a node of a pipeline reached later, from inside its Reopen). Every pipeline that stays
+// registered from before the call until after it has every node reopened at least once.
+func c20RemovalDuringReopen(run *rt.Run, r *rt.Rand) {
+	ctx := context.Background()
+	n := run.N(60, 3000)
+	for it := 0; it < n && !run.Stop(); it++ {
+		b, err := eventlogger.NewBroker()
+		if err != nil {
+			run.Inconclusive(err.Error())
+			return
+		}
+		P := r.Range(3, 7)
+		trigger := r.Range(1, P-2)
+		victimAt := r.Intn(trigger + 1) // an earlier pipeline, or the very pipeline whose node is being reopened
+		withNodes := r.Intn(3) == 0
+		type pl struct {
+			pid     eventlogger.PipelineID
+			f, m, k *reNode
+		}
+		pls := make([]*pl, P)
+		var mu sync.Mutex
+		var order []*pl
+		var removed *pl
+		var rmErr error
+		for i := 0; i < P; i++ {
+			x := &pl{pid: eventlogger.PipelineID(fmt.Sprintf("rp%d", i)), f: &reNode{typ: eventlogger.NodeTypeFilter}, m: &reNode{typ: eventlogger.NodeTypeFormatter}, k: &reNode{typ: eventlogger.NodeTypeSink}}
+			pls[i] = x
+			x.f.hook = func() {
+				mu.Lock()
+				for _, o := range order {
+					if o == x {
+						mu.Unlock()
+						return
+					}
+				}
+				order = append(order, x)
+				me := len(order) - 1
+				var v *pl
+				if me == trigger && removed == nil {
+					v = order[victimAt]
+					removed = v
+				}
+				mu.Unlock()
+				if v != nil {
+					if withNodes {
+						_, rmErr = b.RemovePipelineAndNodes(ctx, "rt", v.pid)
+					} else {
+						rmErr = b.RemovePipeline("rt", v.pid)
+					}
+				}
+			}
+			var ids []eventlogger.NodeID
+			for j, nd := range []*reNode{x.f, x.m, x.k} {
+				id := eventlogger.NodeID(fmt.Sprintf("rn-%d-%d", i, j))
+				b.RegisterNode(id, nd)
+				ids = append(ids, id)
+			}
+			if err := b.RegisterPipeline(eventlogger.Pipeline{EventType: "rt", PipelineID: x.pid, NodeIDs: ids}); err != nil {
+				run.Inconclusive("reopen walk: " + err.Error())
+				return
+			}
+		}
+		rerr := b.Reopen(ctx)
+		desc := fmt.Sprintf("%d pipelines of one type; from inside Reopen, the first node of the pipeline reached as number %d removes (with nodes: %v) the pipeline reached as number %d; removal error: %v; Broker.Reopen returned %v",
+			P, trigger+1, withNodes, victimAt+1, rmErr, rerr)
+		run.Eval(fmt.Sprintf("reopen-walk|%d|%d|%d|%v", P, trigger, victimAt, withNodes))
+		run.Add("removal_during_reopen_calls", 1)
+		if removed == nil {
+			run.Add("removal_during_reopen_not_reached", 1)
+			continue
+		}
+		if rerr != nil {
+			run.Add("removal_during_reopen_errors_not_judged", 1)
+			continue
+		}
+		for i, x := range pls {
+			if x == removed {
+				continue
+			}
+			if f, m, k := atomic.LoadInt64(&x.f.reopens), atomic.LoadInt64(&x.m.reopens), atomic.LoadInt64(&x.k.reopens); f < 1 || m < 1 || k < 1 {
+				run.Violation("history-pattern:reopen-missed", fmt.Sprintf("pipeline %d stayed registered throughout Broker.Reopen, which returned nil, yet its nodes were reopened %d/%d/%d times", i, f, m, k), desc)
+				break
+			}
+		}
+	}
+}
